@@ -79,6 +79,13 @@ static const Prog PROGS[] = {
   { "matches",
     "k = 0; n = 0;",
     "pat = \"^[a-\" + chr(97 + k) + \"]+$\"; for i in 1 to 2 loop if \"abc\" matches pat then n = n + 1; end if; if \"ab\" matches \"^[ab]+$\" then n = n + 10; end if; end loop; print n pat;" },
+  /* several functions of one name (told apart by the number of parameters) and functions declared after them: a clone holds
+   * all of them, in the places the compiled calls of the original refer to */
+  { "overloads",
+    "k = 0; function ov(a) return integer is begin return a + 1; end; function ov(a, b) return integer is begin return a * b + 100; end; "
+    "function ov(a, b, c) return integer is begin return a - b - c; end; function zl(x) return string is begin return \"z\" + str(ov(x)); end; "
+    "function ov() return integer is begin return 77; end;",
+    "print ov(k) ov(k, 3) ov(9, k, 1) zl(k) ov();" },
   { "tuple-table",
     "k = 0; r = tup(1, \"a\"); tt = tab(2, tup(0, \"z\"));",
     "r.set@1(k); tt.put(0, r); forall e in tt loop e.set@2(str(k)); end loop; print r@1 tt.at(0)@1 tt.at(1)@2;" },
